@@ -324,7 +324,7 @@ def run(ctx):
             files = [f for f in files if os.path.getsize(f) < 60000]
         args += [(prop, "corpus", f) for f in files]
     args += [(prop, "main", engine.sub_seed(seed, i, prop)) for i in range(n)]
-    n_edge = max(6, n // 25)
+    n_edge = max(12, n // 12)
     for knob in spec.edge:
         args += [(prop, f"edge:{knob}", engine.sub_seed(seed, i, prop + knob)) for i in range(n_edge)]
     if not ctx["model_ok"]:
@@ -374,9 +374,10 @@ def summarise(ctx, spec, results):
         if r["corr"]:
             rec = {"correspondence": f"Coq model (Driver.observe_package) <-> /repo public API, projection of {prop}",
                    "stream": r["stream"], "seed": r["sub"], **r["corr"]}
-            if in_domain:
-                corr.append(rec)
-            else:
+            # the model is faithful on the unusual ingredients too (it reproduces every known
+            # finding): a disagreement in an edge stream is a broken correspondence as well
+            corr.append(rec)
+            if not in_domain:
                 drift += 1
         for name, msg in r["fails"]:
             explained = None
